@@ -430,6 +430,23 @@ pub fn one_case(ctx: &Ctx, case: u64, l: &mut Local) {
                 }
                 _ => v = rand_json(&mut r, 3),
             }
+            if r.chance(12) {
+                // shapes of the GENERAL JWS JSON serialization and other near-misses of the flattened one
+                let g = |k: &str| v.get(k).cloned().unwrap_or(Value::Null);
+                let (pr, pl, sg, ds) = (g("protected"), g("payload"), g("signature"), g("disclosures"));
+                v = match r.below(10) {
+                    0 => json!({"payload": pl, "signatures": []}),
+                    1 => json!({"payload": pl, "signatures": [{}]}),
+                    2 => json!({"payload": pl, "signatures": [{"protected": pr, "signature": sg, "header": {"disclosures": ds}}]}),
+                    3 => json!({"payload": pl, "signatures": [{"protected": pr, "signature": sg}], "disclosures": ds}),
+                    4 => json!({"payload": "e30", "signatures": []}),
+                    5 => json!({"payload": pl, "signatures": null, "protected": pr, "signature": sg, "disclosures": []}),
+                    6 => json!([{"protected": pr, "payload": pl, "signature": sg, "disclosures": ds}]),
+                    7 => json!({"protected": [pr], "payload": [pl], "signature": [sg], "disclosures": ds}),
+                    8 => json!({"payload": pl, "signatures": [{"protected": pr, "signature": sg}, {"protected": pr, "signature": sg}], "disclosures": ds, "kb_jwt": []}),
+                    _ => json!({"jwt": format!("{}.{}.{}", pr.as_str().unwrap_or(""), pl.as_str().unwrap_or(""), sg.as_str().unwrap_or("")), "disclosures": ds}),
+                };
+            }
             p.l.distinct(crate::rng::mix(fp_base ^ gen::hash_str(k) ^ (op << 40) ^ gen::shape_fingerprint(&v)));
             p.feed(&v.to_string(), Fmt::Json, &mut r, None);
         }
@@ -480,6 +497,17 @@ pub fn one_case(ctx: &Ctx, case: u64, l: &mut Local) {
                     payload[*r.pick(&["exp", "nbf", "iat"])] = big;
                     if payload.get("exp").is_none() {
                         payload["exp"] = json!(api::now() + 3600);
+                    }
+                }
+                3 => {
+                    // at and around "now" (inside jsonwebtoken's leeway): accepted or refused, never a crash
+                    let now = api::now();
+                    payload["exp"] = json!(*r.pick(&[now, now - 1, now - 30, now - 59, now - 60, now - 61, now + 1, now + 60]));
+                    if r.chance(30) {
+                        payload["nbf"] = json!(*r.pick(&[now, now + 1, now + 59, now + 60, now + 61, now - 1]));
+                    }
+                    if r.chance(30) {
+                        payload["iat"] = json!(*r.pick(&[now, now + 1, now + 61, now - 1]));
                     }
                 }
                 _ => payload["exp"] = json!(api::now() + 3600),
